@@ -41,7 +41,7 @@ class Op:
         self.timestamps = False
         self.orig_style = False   # --- a/p.orig / +++ b/p
         self.ctx = 3
-        self.poison = None        # None | 'hunks' | 'missing' | 'create-over' | 'delete-mismatch' | 'misordered'
+        self.poison = None        # None | 'hunks' | 'missing' | 'create-over' | 'delete-mismatch' | 'misordered' | 'rename-over'
         self.hunks = None         # hunks as rendered (after poison), in patch direction
         self.failing = []         # indices of hunks expected to fail
         self.poison_want = None   # for poison == 'hunks': which hunk indices to poison
@@ -272,7 +272,7 @@ class GenConfig:
         self.min_patches = 1
         self.max_ops = 3
         self.p_fail = 0.5           # probability that the series contains a failing patch
-        self.fail_reasons = ["hunks", "hunks", "hunks", "missing", "create-over", "delete-mismatch", "misordered"]
+        self.fail_reasons = ["hunks", "hunks", "hunks", "missing", "create-over", "delete-mismatch", "misordered", "rename-over"]
         self.kinds = ["modify"] * 8 + ["create"] * 2 + ["delete"] * 2 + ["rename"] * 2 + ["chmod"] * 1 + ["truncate"] * 1 + ["fill"] * 1
         self.allow_git = True
         self.allow_reverse = True
@@ -580,6 +580,24 @@ def _poison(r, patch, tree_before, work, cfg):
             if patch.reverse:
                 patch.reverse = False
             return
+        if reason == "rename-over":
+            # a git rename onto a name that exists with content: refused as a whole (no reject for it), nothing may change,
+            # neither content nor the modes of the two files
+            if not patch.git or patch.reverse:
+                continue
+            cands = [p for p in tree_before if tree_before[p][0] and p in work and work[p] == tree_before[p]
+                     and not any(p in (o.path, o.new_path) for o in patch.ops)]
+            if len(cands) < 2:
+                continue
+            a, b = r.sample(cands, 2)
+            data, mode = tree_before[a]
+            post = mutate_content(r, data) if r.random() < 0.5 else data
+            op = Op("rename", a, new_path=b, pre=data, post=post or data, pre_mode=mode, post_mode=mode)
+            op.style = "git"
+            op.ctx = 3
+            op.poison = "rename-over"
+            patch.ops.insert(r.randint(0, len(patch.ops)), op)
+            return
         if reason == "delete-mismatch":
             cands = [p for p in tree_before if tree_before[p][0] and p in work and work[p] == tree_before[p]]
             if not cands:
@@ -629,6 +647,86 @@ def materialize(ws, root, applied=0, patches_dir="patches"):
         with open(os.path.join(root, ".pc", "applied-patches"), "w") as f:
             for p in ws.patches[:applied]:
                 f.write(p.name + "\n")
+
+
+def nest_patch_names(ws, r, patches_dir="patches"):
+    """Move some patches into sub-directories of the patch directory, among them one called like the patch
+    directory itself, and give one of those the base name of an earlier top-level patch
+    (series: fix.patch ... patches/fix.patch): a goal given by name must mean exactly the entry typed."""
+    def rename(p, new):
+        assert p.series_line.startswith(p.name)
+        p.series_line = new + p.series_line[len(p.name):]
+        p.name = new
+    n = len(ws.patches)
+    for p in ws.patches:
+        if r.random() < 0.4:
+            rename(p, r.choice([patches_dir, patches_dir, "sub/dir", "x"]) + "/" + p.name)
+    if n >= 2:
+        i = r.randrange(0, n - 1)
+        j = r.randrange(i + 1, n)
+        base = ws.patches[i].name.rsplit("/", 1)[-1]
+        rename(ws.patches[i], base)
+        new = patches_dir + "/" + base
+        if all(q.name != new for q in ws.patches):
+            rename(ws.patches[j], new)
+
+
+def add_newdir_reject(ws, r):
+    """Make the failing patch reject a file in a directory that does not exist when the push starts and is created by an
+    earlier patch of the series (so, in one invocation, it exists on disk only once the tree has been saved)."""
+    if ws.fail_at is None:
+        return False
+    d = r.choice(["fresh", "fresh/deep", "src/fresh", "a/b/c/fresh"])
+    top = d.split("/")[0]
+    for t in ws.trees:
+        for q in t:
+            if q == top or q.startswith(top + "/") or q == d:
+                return False
+    for p in ws.patches:
+        for o in p.ops:
+            for q in (o.path, o.new_path):
+                if q == top or q.startswith(top + "/"):
+                    return False
+    content = b"one\ntwo\nthree\nfour\nfive\n"
+    names = [d + "/n%d.c" % i for i in range(r.randint(2, 4))]
+    ops = []
+    for nm in names:
+        o = Op("create", nm, pre=None, post=content, pre_mode=None, post_mode=DEFAULT_MODE)
+        o.style = "devnull"
+        ops.append(o)
+    files = dict((nm, (content, DEFAULT_MODE)) for nm in names)
+    pos = r.randint(0, ws.fail_at)
+    if r.random() < 0.5:
+        p = PatchSpec("p-newdir.patch", ops, 1, False, False)
+        render_patch(p, r)
+        ws.patches.insert(pos, p)
+        ws.trees = ws.trees[:pos + 1] + [dict(t, **files) for t in ws.trees[pos:]]
+        ws.fail_at += 1
+    else:
+        # one creating patch per file: the directory is created by whichever worker saves first
+        trees = ws.trees[:pos + 1]
+        acc = dict(ws.trees[pos])
+        for i, o in enumerate(ops):
+            p = PatchSpec("p-newdir-%d.patch" % i, [o], 1, False, False)
+            render_patch(p, r)
+            ws.patches.insert(pos + i, p)
+            acc = dict(acc)
+            acc[o.path] = files[o.path]
+            trees.append(acc)
+        trees += [dict(t, **files) for t in ws.trees[pos + 1:]]
+        ws.trees = trees
+        ws.fail_at += len(ops)
+    fp = ws.patches[ws.fail_at]
+    k = r.randint(1, min(2, len(names)))
+    for nm in r.sample(names, k):
+        o = Op("modify", nm, pre=content, post=b"one\nTWO\nthree\nfour\nfive\n", pre_mode=DEFAULT_MODE, post_mode=DEFAULT_MODE)
+        o.style = "git" if fp.git else "plain"
+        o.ctx = r.choice([1, 2, 3])
+        o.poison = "hunks"
+        o.poison_want = [0]
+        fp.ops.insert(r.randint(0, len(fp.ops)), o)
+    render_patch(fp, r)
+    return True
 
 
 def expected_after(ws, first, goal_count):
